@@ -684,7 +684,7 @@ def rule_d1(ctx: Ctx) -> None:
         ctx.run(check_steps, ctx, fi, op)
 
 
-def generator_or_skeleton(ctx: Ctx, fi: FuncInfo, specs: List[str], what: str) -> None:
+def generator_or_skeleton(ctx: Ctx, fi: FuncInfo, specs: List[str], what: str, rule: str = "C11-D1") -> None:
     """Generator functions of the shape ``for t in D: if C: yield E`` are compared as the
     equivalent generator expression."""
     body = fi.body
@@ -708,11 +708,19 @@ def generator_or_skeleton(ctx: Ctx, fi: FuncInfo, specs: List[str], what: str) -
         from ..skeleton import has_unrecognised
 
         if impl in spec_terms:
-            ctx.ok("C11-D1", fi.where, f"{what}: {show(impl)[:160]}", fi.node, fi)
+            ctx.ok(rule, fi.where, f"{what}: {show(impl)[:160]}", fi.node, fi)
             return
+        from ..skelrules import edit_distance, prop_equivalent, same_atoms
+
         for s in spec_terms:
-            if not has_unrecognised(impl) and logic_vocab(impl) == logic_vocab(s):
-                ctx.violation("C11-D1", fi, fi.node, f"{what}: implementation selects  {show(impl)[:200]}  but the definition is  {show(s)[:200]}")
+            if prop_equivalent(impl, s, ctx.repo) is True:
+                ctx.ok(rule, fi.where, f"{what}: {show(impl)[:160]}", fi.node, fi)
+                return
+        for s in spec_terms:
+            if has_unrecognised(impl):
+                continue
+            if edit_distance(impl, s, 1) == 1 or (same_atoms(impl, s) and prop_equivalent(impl, s, ctx.repo) is False):
+                ctx.violation(rule, fi, fi.node, f"{what}: implementation selects  {show(impl)[:200]}  but the definition is  {show(s)[:200]}")
                 return
         raise AnalysisError(f"{fi.where}: cannot compare with the definition ({what})")
     specs2 = [s for s in specs if not s.strip().startswith("for ")]
@@ -723,7 +731,7 @@ def generator_or_skeleton(ctx: Ctx, fi: FuncInfo, specs: List[str], what: str) -
             node = ast.parse(s.strip()).body[0]
             ge2 = ast.GeneratorExp(elt=node.body[0].body[0].value.value, generators=[ast.comprehension(target=node.target, iter=node.iter, ifs=[node.body[0].test], is_async=0)])
             specs2.append("return " + ast.unparse(ge2))
-    check_skeleton(ctx, "C11-D1", fi, specs2, what)
+    check_skeleton(ctx, rule, fi, specs2, what)
 
 
 def check_steps(ctx: Ctx, fi: FuncInfo, op: str) -> None:
@@ -747,12 +755,12 @@ def check_steps(ctx: Ctx, fi: FuncInfo, op: str) -> None:
     if len(hits_all) == 1 and len(hits_step) == 1:
         ctx.ok("C11-D1", fi.where, f"{fi.name}: positions i with self[i] {op} self[i+1]; with a step size, exactly that difference", fi.node, fi)
         return
-    from ..skelrules import logic_vocab
+    from ..skelrules import edit_distance
 
     for t in terms:
         if t not in (want_all, want_all2) and t not in want_step:
-            for w in [want_all] + want_step[:1]:
-                if logic_vocab(t) == logic_vocab(w):
+            for w in [want_all, want_all2] + want_step:
+                if edit_distance(t, w, 1) == 1:
                     ctx.violation("C11-D1", fi, fi.node, f"{fi.name}: selects  {show(t)[:200]}  but the definition is  {show(w)[:200]}")
                     return
     raise AnalysisError(f"{fi.where}: step comprehension not comparable with the definition")
